@@ -10,6 +10,8 @@
 (*  Reset   run clen flen                                                  *)
 (*  Call    side (R|W) req ret (n|int|err|zero) n                          *)
 (*  Return  result (ok|err|panic) written prefix_ok equal consumed         *)
+(*  Summary result written equal   (a run without recorded calls)          *)
+(*  Died    how                    (no transition: the process was killed) *)
 (***************************************************************************)
 EXTENDS Naturals, Sequences, TLC, Json, IOUtils
 
@@ -66,7 +68,15 @@ ReturnEv ==
   /\ phase' = "idle"
   /\ UNCHANGED <<base, rpos, wpos, hard, intr>>
 
-Next == Reset \/ CallEv \/ ReturnEv
+\* a run whose calls were not recorded one by one (one byte per call, no faults, on a thread with a
+\* small stack): only the verdict - without faults the result is the file
+SummaryEv ==
+  /\ IsEvent("Summary") /\ phase = "run" /\ rpos = 0 /\ wpos = 0
+  /\ Rec[l].result = "ok" /\ Rec[l].equal /\ Rec[l].written = Rec[base].flen
+  /\ phase' = "idle"
+  /\ UNCHANGED <<base, rpos, wpos, hard, intr>>
+
+Next == Reset \/ CallEv \/ ReturnEv \/ SummaryEv
 Spec == Init /\ [][Next]_vars
 
 Bounds == rpos <= Rec[base].clen /\ wpos <= Rec[base].flen
